@@ -47,8 +47,18 @@ type scenario struct {
 	wrapIn int
 	// build produces the byte strings fed to the receiver from the held link frames
 	// (and the held frames of the reverse direction, if any).
-	build  func(held [][]byte, rev [][]byte) [][]byte
-	desync bool // framing is lost: only the safety oracle applies
+	build func(held [][]byte, rev [][]byte) [][]byte
+	// pre > 0: before the link comes up, that many connections of a stranger to the
+	// RECEIVING router are aborted during link setup by one cut-short message each
+	// (whatever such an aborted setup leaves behind must not touch the frames of
+	// the healthy link that follows).
+	pre int
+	// closeWindow: after the fault window the sending router closes the link; while
+	// its Close is still under way (the connection's own close takes its time) two
+	// more frames are handed to the link. Whatever still reaches the wire then is
+	// subject to the same oracles (no clear text, nothing altered delivered).
+	closeWindow bool
+	desync      bool // framing is lost: only the safety oracle applies
 	// expectDelivered, if >= 0, is the exact number of handed frames that must arrive.
 	expect int
 }
@@ -86,6 +96,31 @@ func run(t *testing.T, sc scenario) (res result) {
 	synctest.Test(t, func(t *testing.T) {
 		a, b := mkNode("A", 0), mkNode("B", 1)
 		wa, wb := kit.WatchPanics(a), kit.WatchPanics(b)
+		for i := 0; i < sc.pre; i++ {
+			victim := b
+			if sc.reverse {
+				victim = a
+			}
+			// well-framed first messages that fail the frame parser's inner length checks.
+			msg := make([]byte, 70)
+			msg[0] = 1
+			switch i % 3 {
+			case 0:
+				msg[48] = 0xFF // switch block longer than the frame
+			case 1:
+				msg[49], msg[50] = 0xFF, 0xFF // message longer than the frame
+			default:
+				msg[4] = byte(frame.RouterPing)
+				msg[49], msg[50] = 0, 19 // signature does not fit
+			}
+			ep := kit.NewEndpoint(fmt.Sprintf("stranger-%d", i))
+			ep.Feed(append([]byte{0, byte(len(msg))}, msg...))
+			_, _ = kit.Accept(victim, ep)
+			synctest.Wait()
+			ep.FeedEOF()
+			synctest.Wait()
+			_ = ep.Close()
+		}
 		w := kit.NewWire(a, b)
 		w.EA.MaxRead, w.EB.MaxRead = sc.seg, sc.seg
 		w.Start()
@@ -206,6 +241,26 @@ func run(t *testing.T, sc scenario) (res result) {
 			// frames of the fault window arriving late still count as delivered.
 			res.delivered = append(res.delivered, d)
 		}
+		if sc.closeWindow {
+			epSrc := w.EA
+			if sc.reverse {
+				epSrc = w.EB
+			}
+			epSrc.HoldClose(true)
+			go link.Close(nil)
+			synctest.Wait()
+			for i, mt := range []frame.MessageType{frame.SessionData, frame.RouterCtrl, frame.NetworkTraffic} {
+				send(src, dst, link, 700+i, fspec{mt, 90})
+				synctest.Wait()
+				w.Pump(3)
+			}
+			epSrc.HoldClose(false)
+			synctest.Wait()
+			w.Pump(3)
+			for _, d := range drain() {
+				res.delivered = append(res.delivered, d)
+			}
+		}
 		res.closing = rlink.IsClosing()
 		res.readerPanics = append(wa(), wb()...)
 		// clear text scan over everything that crossed the wire after the handshake.
@@ -271,7 +326,7 @@ func TestC05(t *testing.T) {
 					idx = i
 				}
 			}
-			isPost := bytes.Contains(d, []byte("PAYLOAD-50"))
+			isPost := bytes.Contains(d, []byte("PAYLOAD-50")) || bytes.Contains(d, []byte("PAYLOAD-70"))
 			if idx < 0 && !isPost {
 				rep.Violate(cls+"/altered-frame-delivered", fmt.Sprintf("a frame that was never handed to the link reached the remote frame handler (%d bytes): %s", len(d), desc), desc)
 				rep.Outcome("altered-delivered!")
@@ -318,6 +373,32 @@ func TestC05(t *testing.T) {
 					}
 					judge(sc, run(t, sc))
 				}
+			}
+		}
+	}
+	// ---- the sender closes the link while frames are still handed to it.
+	for _, rv := range []bool{false, true} {
+		if !mine() {
+			continue
+		}
+		sc := scenario{name: fmt.Sprintf("close-window@rev%v", rv), frames: twoSmall, reverse: rv, expect: 2, closeWindow: true, desync: true,
+			build: func(h, r [][]byte) [][]byte { return h }}
+		judge(sc, run(t, sc))
+	}
+	// ---- honest links that come up after aborted setups of a stranger; several frames read back to back.
+	for _, rv := range []bool{false, true} {
+		for _, pre := range []int{1, 2, 3, 6} {
+			for _, fs := range [][]fspec{
+				{{frame.SessionData, 40}, {frame.SessionData, 41}, {frame.NetworkTraffic, 45}, {frame.SessionData, 100}},
+				{{frame.RouterCtrl, 300}, {frame.SessionData, 420}, {frame.NetworkTraffic, 45}},
+				{{frame.SessionData, 1200}, {frame.NetworkTraffic, 1300}, {frame.SessionData, 900}},
+			} {
+				if !mine() {
+					continue
+				}
+				sc := scenario{name: fmt.Sprintf("after-aborted-setups@pre%d-frames%d-first%d-rev%v", pre, len(fs), fs[0].size, rv), frames: fs, reverse: rv, pre: pre, expect: len(fs),
+					build: func(h, r [][]byte) [][]byte { return [][]byte{bytes.Join(h, nil)} }}
+				judge(sc, run(t, sc))
 			}
 		}
 	}
